@@ -1316,6 +1316,19 @@ func (env *specEnv) call(x *ast.CallExpr) (T, error) {
 		}
 		return nil
 	}
+	if name != "" && env.pkg != nil && len(x.Args) == 1 {
+		// conversion T(x) to a named type of the contract's package with the same representation
+		if tn, ok := env.pkg.Scope().Lookup(name).(*types.TypeName); ok {
+			a, err := env.eval(x.Args[0])
+			if err != nil {
+				return T{}, err
+			}
+			if a.Go != nil && e.sortOf(a.Go) == e.sortOf(tn.Type()) {
+				return T{a.S, a.Sort, tn.Type()}, nil
+			}
+			return T{}, fmt.Errorf("unsupported conversion to %s", name)
+		}
+	}
 	switch name {
 	case "old":
 		if err := argN(1); err != nil {
@@ -1691,8 +1704,10 @@ func (env *specEnv) call(x *ast.CallExpr) (T, error) {
 		if h == "" {
 			return T{}, fmt.Errorf("fold over slice of structs")
 		}
-		fn := "foldopaque_" + sanitize(esort)
+		// one opaque function per fold body (folds with different bodies must not be identified)
+		fn := "foldopaque_" + sanitize(esort) + "_" + fmt.Sprintf("%08x", fnv32(types.ExprString(x.Args[4])))
 		e.declFun(fn, []string{acc.Sort, "(Array Int " + esort + ")", "Int", "Int"}, acc.Sort)
+		e.addDecl("axiom:"+fn, "(assert (forall ((i "+acc.Sort+") (a (Array Int "+esort+")) (o Int)) (! (= ("+fn+" i a o 0) i) :pattern (("+fn+" i a o 0)))))")
 		return T{"(" + fn + " " + acc.S + " (select " + e.H(env.cur, h, hs) + " (sarr " + sv.S + ")) (soff " + sv.S + ") (slen " + sv.S + "))", acc.Sort, acc.Go}, nil
 	case "called":
 		// called(fn): the named function of this package has been called on this path
@@ -1954,6 +1969,9 @@ var staticSliceRe = regexp.MustCompile(`^\(mk_slice \S+ 0 \(- (\d+) 0\) \(- (\d+
 
 // staticSliceLen recognises the slice term built for a variadic argument list ("new [k]T; t[:]").
 func staticSliceLen(s string) (int, bool) {
+	if s == "(mk_slice 0 0 0 0)" {
+		return 0, true // the nil slice
+	}
 	m := staticSliceRe.FindStringSubmatch(s)
 	if m == nil {
 		return 0, false
